@@ -82,7 +82,7 @@ class GeneratorDriver:
             if not np.allclose(w2, w3, rtol=1e-9, atol=0):
                 raise Divergence('get_weights after changing the particle energy vs fresh particle', [float(x) for x in w3], [float(x) for x in w2])
             want_sw = 1.0 if last['shadow'] else (1.0 if last['survives'] else 0.0)
-            if abs(p.survival_weight - want_sw) > 1e-12:
+            if not (abs(p.survival_weight - want_sw) <= 1e-12):
                 raise Divergence('survival_weight of the returned particle', want_sw, p.survival_weight)
         elif op == 'CreateList':
             try:
